@@ -4,8 +4,15 @@ C10 — the state trie is a canonical authenticated map. Property theorems only
 -/
 import NeoModel.Model.Mpt
 import NeoModel.Proofs.MptLookup
+import NeoModel.Proofs.MptWF
+import NeoModel.Proofs.MptCanonical
+import NeoModel.Proofs.MptBatch
+import NeoModel.Proofs.MptHistory
+import NeoModel.Proofs.MptProofs
 namespace NeoModel.C10
 open NeoModel.Mpt
+
+/-! ## 1. reads after writes -/
 
 /-- C10.1a: after `Put(p, v)` the key `p` reads `v` and every other key reads what it read before
 (any trie, any path — no well-formedness needed). -/
@@ -16,5 +23,142 @@ theorem lookup_put (t : Node) (p : Path) (v : Val) (q : Path) :
 -- non-vacuity: splitting an extension (doc.go example: 1203 into the trie holding 1201)
 example : lookup (put (put .empty [1,2,0,1] [0xaa]) [1,2,0,3] [0xbb]) [1,2,0,1] = some [0xaa] := by
   rw [lookup_put, lookup_put]; decide
+
+/-- C10.1b: after `Delete(p)` the key `p` is absent and every other key reads what it read before
+(including the branch-collapse and extension-merge restructuring). -/
+theorem lookup_delete (t : Node) (p q : Path) :
+    lookup (delete t p) q = if q = p then none else lookup t q :=
+  Mpt.lookup_delete t p q
+
+example : lookup (delete (put (put .empty [1,2] [1]) [1,3] [2]) [1,2]) [1,3] = some [2] := by
+  rw [lookup_delete, lookup_put, lookup_put]; decide
+
+/-- C10.1c: `PutBatch` of a batch with pairwise different keys makes every key of the batch read what
+the batch says (a deletion reads absent) and leaves every other key alone — including the batch
+path's own restructuring (`stripBranch`, `mergeExtension`, `newSubTrieMany`). -/
+theorem lookup_putBatch (t : Node) (kv : Batch) (hd : DistinctKeys kv) (q : Path) :
+    lookup (putBatch t kv) q = applyBatch (lookup t) kv q :=
+  Mpt.lookup_putBatch t kv hd q
+
+/-- … and for a Go map `m` passed through `MapToMPTBatch` (the sort does not matter). -/
+theorem lookup_putBatch_map (t : Node) (m : List KV) (hd : DistinctKeys m) (q : Path) :
+    lookup (putBatch t (mapToBatch m)) q = applyBatch (lookup t) m q :=
+  Mpt.lookup_putBatch_map t m hd q
+
+-- non-vacuity: a batch that deletes one key of an extension's subtree and adds a sibling
+example : lookup (putBatch (put (put .empty [1,2] [1]) [1,3] [2]) [([1,2], none), ([1,4], some [9])]) [1,4]
+    = some [9] := by
+  rw [lookup_putBatch _ _ (by simp [DistinctKeys])]; decide
+
+/-! ## 2. the structural invariants of doc.go:31-37 are preserved -/
+
+theorem wf_put (t : Node) (p : Path) (v : Val) (h : WF t) : WF (put t p v) := Mpt.wf_put t p v h
+
+theorem wf_delete (t : Node) (p : Path) (h : WF t) : WF (delete t p) := Mpt.wf_delete t p h
+
+theorem wf_putBatch (t : Node) (kv : Batch) (h : WF t) : WF (putBatch t kv) := Mpt.wf_putBatch t kv h
+
+-- non-vacuity: the empty trie is well-formed, so every trie built by puts/deletes is
+example : WF (delete (put (put .empty [1,2] [1]) [1,3] [2]) [1,2]) :=
+  wf_delete _ _ (wf_put _ _ _ (wf_put _ _ _ (by simp [WF])))
+
+/-! ## 3. canonicity -/
+
+/-- C10.3: two well-formed tries with the same contents are the same trie (hence have the same
+encoding and the same root hash, whatever the hash function). -/
+theorem canonical (a b : Node) (ha : WF a) (hb : WF b) (h : ∀ p, lookup a p = lookup b p) : a = b :=
+  Mpt.canonical a b ha hb h
+
+-- non-vacuity: two insertion orders
+example : put (put .empty [1,2] [1]) [1,3] [2] = put (put .empty [1,3] [2]) [1,2] [1] :=
+  canonical _ _ (wf_put _ _ _ (wf_put _ _ _ (by simp [WF]))) (wf_put _ _ _ (wf_put _ _ _ (by simp [WF])))
+    (fun p => by
+      simp only [lookup_put]
+      by_cases h1 : p = [1,3] <;> by_cases h2 : p = [1,2] <;> simp_all)
+
+/-- C10.4: after ANY history of Puts, Deletes and batches (each batch a map, i.e. distinct keys) the
+trie is well-formed and holds exactly the history's contents. -/
+theorem run_spec (ops : List Op) (hok : ∀ o ∈ ops, o.ok) :
+    WF (run ops) ∧ ∀ q, lookup (run ops) q = contents ops q :=
+  Mpt.run_spec ops hok
+
+/-- C10.4: history independence. Two histories that end in the same contents end in the same trie,
+hence the same root hash — for every hash function `H` (no assumption on `H` is needed: the tries
+are equal, not just their hashes). -/
+theorem root_history_independent (H : Bytes → Bytes) (ops₁ ops₂ : List Op)
+    (h₁ : ∀ o ∈ ops₁, o.ok) (h₂ : ∀ o ∈ ops₂, o.ok)
+    (hc : ∀ q, contents ops₁ q = contents ops₂ q) :
+    run ops₁ = run ops₂ ∧ rootHash H (run ops₁) = rootHash H (run ops₂) := by
+  have e : run ops₁ = run ops₂ :=
+    Mpt.canonical _ _ (Mpt.run_spec ops₁ h₁).1 (Mpt.run_spec ops₂ h₂).1
+      (fun q => by rw [(Mpt.run_spec ops₁ h₁).2, (Mpt.run_spec ops₂ h₂).2, hc])
+  exact ⟨e, by rw [e]⟩
+
+/-- … in particular the root equals that of a fresh trie built from the final contents. -/
+theorem root_eq_build (H : Bytes → Bytes) (ops : List Op) (hok : ∀ o ∈ ops, o.ok)
+    (l : List (Path × Val)) (hl : ∀ q, contents ops q = contents (l.map fun e => Op.put e.1 e.2) q) :
+    rootHash H (run ops) = rootHash H (build l) :=
+  (root_history_independent H ops _ hok (by intro o ho; simp only [List.mem_map] at ho; obtain ⟨e, _, rfl⟩ := ho; trivial) hl).2
+
+-- non-vacuity: put+put+delete vs. one batch vs. a single put
+example (H : Bytes → Bytes) :
+    rootHash H (run [.put [1,2] [1], .put [1,3] [2], .del [1,2]]) = rootHash H (run [.batch [([1,3], some [2]), ([7], none)]]) := by
+  refine (root_history_independent H _ _ (by intro o ho; simp at ho; rcases ho with rfl | rfl | rfl <;> trivial)
+    (by intro o ho; simp at ho; subst ho; simp [Op.ok, DistinctKeys]) ?_).2
+  intro q
+  simp only [contents, List.foldl, specOp, applyBatch, List.lookup]
+  by_cases h1 : q = [1,3]
+  · subst h1; simp
+  · by_cases h2 : q = [1,2]
+    · subst h2; simp
+    · by_cases h3 : q = [7]
+      · subst h3; simp
+      · have e1 : (q == [1,3]) = false := by simpa using h1
+        have e3 : (q == [7]) = false := by simpa using h3
+        simp [h1, h2, e1, e3]
+
+/-! ## 5. membership proofs -/
+
+/-- C10.6 completeness: for a present key, the list returned by `GetProof` verifies against the
+state root to the stored value. (`H` = double SHA-256 in the code; needed of it: injective on the
+byte strings involved and 32-byte output. `Bounded t`: extension keys ≤ 136 nibbles, values ≤
+MaxValueLength — implied by the key/value limits of `Put`, see `bounded_of_contents`.) -/
+theorem proof_complete (H : Bytes → Bytes) (hinj : Function.Injective H) (h32 : ∀ b, (H b).length = 32)
+    (t : Node) (hb : Bounded t) (key : Bytes) (v : Val) (hv : lookup t (toNibbles key) = some v) :
+    ∃ ps, getProof H t (toNibbles key) = some ps ∧ verifyProof H (rootHash H t) key ps = .found v := by
+  have hsome : (getProof H t (toNibbles key)).isSome = true := by rw [getProof_isSome, hv]; rfl
+  obtain ⟨ps, hps⟩ := Option.isSome_iff_exists.mp hsome
+  have hne : t.isEmpty = false := by
+    cases ht : t.isEmpty with
+    | false => rfl
+    | true => rw [isEmpty_iff.mp ht] at hv; simp [lookup] at hv
+  obtain ⟨x, hx, hw⟩ := walk_complete hinj h32 ps t (ps.length + 1) (toNibbles key) ps hb hps (fun _ h => h) (by omega)
+  refine ⟨ps, hps, ?_⟩
+  rw [hv] at hx; cases hx
+  simpa [verifyProof, rootHash, hne] using hw
+
+/-- C10.6 soundness: for ANY list of byte strings `ps`, if verification against the root of a
+non-empty trie `t` returns a value, that value is what `t` stores under the key (so: never a wrong
+value, never a value for an absent key). -/
+theorem proof_sound (H : Bytes → Bytes) (hinj : Function.Injective H) (h32 : ∀ b, (H b).length = 32)
+    (t : Node) (hb : Bounded t) (hne : t.isEmpty = false) (key : Bytes) (ps : List Bytes) (v : Val)
+    (h : verifyProof H (rootHash H t) key ps = .found v) : lookup t (toNibbles key) = some v := by
+  simp only [verifyProof, rootHash, hne] at h
+  exact walk_sound hinj h32 ps t _ _ _ hb hne (by simpa using h)
+
+/-- … and against the root of the EMPTY trie (32 zero bytes) nothing verifies, provided no byte
+string hashes to zero. -/
+theorem proof_sound_empty (H : Bytes → Bytes) (hz : ∀ b, H b ≠ zero32) (key : Bytes) (ps : List Bytes) (v : Val) :
+    verifyProof H (rootHash H .empty) key ps ≠ .found v := by
+  have hf : fetch H ps zero32 = none := by
+    unfold fetch
+    apply List.find?_eq_none.mpr
+    intro p _; simpa using hz p
+  simp [verifyProof, rootHash, Node.isEmpty, walk, hf]
+
+/-- the limits of `Put` (trie.go:147-152) give `Bounded`. -/
+theorem bounded_of_contents (t : Node) (hw : WF t)
+    (h : ∀ p v, lookup t p = some v → p.length ≤ maxPathLength ∧ v.length ≤ maxValueLength) : Bounded t :=
+  Mpt.bounded_of_contents t hw h
 
 end NeoModel.C10
